@@ -68,6 +68,7 @@ from ._common import (
     MAX_REQUEST_BYTES_HEADER,
     MAX_RESPONSE_BYTES_HEADER,
     MAX_UPLOAD_BYTES_HEADER,
+    PROOF_REQUIRED_HEADER,
     SESSION_ACCEPT_HEADER,
     SESSION_CLOSE_HEADER,
     SESSION_HEADER,
@@ -93,6 +94,7 @@ _AUTH_REASONS = frozenset(reason.value for reason in AuthReason)
 # A non-JSON 401 body is someone else's error page. Keep enough to identify
 # the intermediary, not so much that it drowns the traceback.
 _MAX_UNAUTHORIZED_DETAIL = 500
+_INTROSPECT_ENABLED_HEADER = "VGI-Token-Introspection"
 
 if TYPE_CHECKING:
     from vgi_rpc.introspect import ServiceDescription
@@ -1778,6 +1780,8 @@ class HttpServerCapabilities:
     sticky_enabled: bool = False
     sticky_default_ttl: int | None = None
     sticky_echo_headers: tuple[str, ...] = ()
+    proxy_proof_required: bool = False
+    token_introspection: bool = False
 
 
 def http_capabilities(
@@ -1906,6 +1910,11 @@ def http_capabilities(
         else:
             sticky_echo = ()
 
+        proof_raw = headers.get(PROOF_REQUIRED_HEADER) or headers.get(PROOF_REQUIRED_HEADER.lower())
+        proof_required = proof_raw == "true" if proof_raw is not None else False
+        introspect_raw = headers.get(_INTROSPECT_ENABLED_HEADER) or headers.get(_INTROSPECT_ENABLED_HEADER.lower())
+        token_introspection = introspect_raw == "true" if introspect_raw is not None else False
+
         return HttpServerCapabilities(
             max_request_bytes=max_req,
             max_response_bytes=max_resp,
@@ -1918,6 +1927,8 @@ def http_capabilities(
             sticky_enabled=sticky_enabled,
             sticky_default_ttl=sticky_ttl,
             sticky_echo_headers=sticky_echo,
+            proxy_proof_required=proof_required,
+            token_introspection=token_introspection,
         )
     finally:
         if own_client:
